@@ -95,25 +95,30 @@ func genFrame(t *Tape, maxLen int) []byte {
 			}
 		}
 	}
-	if !fenceOpen("cobs-254-run") {
-		// open finding F-C16-encode-254-run: the third-party encoder loses the zero that follows a run of exactly
-		// 254*k non-zero bytes; such frames are not generated while the finding is open
-		run := 0
-		for i := range b {
-			if b[i] != 0 {
-				run++
-				continue
-			}
-			if run > 0 && run%254 == 0 {
-				b[i-1] = 0
-			}
-			run = 0
-		}
-	}
+	fence254(b)
 	return b
 }
 
-func runC16(s *Sim) {
+// fence254: open finding F-C16-encode-254-run: the third-party encoder loses the zero that follows a run of exactly
+// 254*k non-zero bytes; such frames are not generated while the finding is open
+func fence254(b []byte) {
+	if fenceOpen("cobs-254-run") {
+		return
+	}
+	run := 0
+	for i := range b {
+		if b[i] != 0 {
+			run++
+			continue
+		}
+		if run > 0 && run%254 == 0 {
+			b[i-1] = 0
+		}
+		run = 0
+	}
+}
+
+func runC16Frames(s *Sim) {
 	wl := s.WL
 	maxLen := []int{4, 16, 64, 300}[wl.Draw(4)]
 	nFrames := wl.Range(1, 6)
@@ -351,6 +356,154 @@ func trunc(b []byte) []byte {
 		return b[:24]
 	}
 	return b
+}
+
+func runC16(s *Sim) {
+	runC16Frames(s)
+	// the draw comes last, so that the tapes of the single-writer part read as before
+	if !s.Failed() && s.WL.Chance(1, 8) {
+		c16TwoWriters(s)
+	}
+}
+
+// gateDev is a device whose Write blocks until the schedule lets it through, and which takes the bytes only then (a
+// full transmit queue: write(2) copies when there is room).  The serial client writes through one wrapper from its run
+// loop and from a bus callback; which of two blocked writes the device serves first is the schedule.
+type gateReq struct {
+	p    []byte
+	done chan struct{}
+}
+type gateDev struct{ req chan *gateReq }
+
+func (g *gateDev) Write(p []byte) (int, error) {
+	r := &gateReq{p: p, done: make(chan struct{})}
+	g.req <- r
+	<-r.done
+	return len(p), nil
+}
+func (g *gateDev) Read([]byte) (int, error) { return 0, io.EOF }
+func (g *gateDev) Close() error             { return nil }
+
+// two writers, one wrapper: every frame arrives once, intact, and each writer's frames in the order it wrote them
+func c16TwoWriters(s *Sim) {
+	wl := s.WL
+	maxLen := []int{4, 16, 64, 300}[wl.Draw(4)]
+	var frames [2][][]byte
+	for w := range frames {
+		for i, n := 0, wl.Range(1, 4); i < n; i++ {
+			f := genFrame(wl, maxLen)
+			for len(f) < 2 {
+				f = append(f, 1)
+			}
+			f[0], f[1] = byte(0xA0+w), byte(i+1) // frames are told apart by their first two bytes
+			fence254(f)
+			frames[w] = append(frames[w], f)
+		}
+	}
+	dev := &gateDev{req: make(chan *gateReq)}
+	cw := client.NewCobsWrapper(dev, 600)
+	var goCh [2]chan []byte
+	var resCh [2]chan error
+	for w := 0; w < 2; w++ {
+		w := w
+		goCh[w], resCh[w] = make(chan []byte), make(chan error)
+		go func() {
+			for f := range goCh[w] {
+				_, err := cw.Write(f)
+				resCh[w] <- err
+			}
+		}()
+	}
+	defer func() {
+		close(goCh[0])
+		close(goCh[1])
+	}()
+	var wire []byte
+	var inDev [2]*gateReq
+	idx := [2]int{}
+	var order []string
+	// await: writer w is running (alone); it either reaches the device or returns from Write
+	await := func(w int) bool {
+		select {
+		case r := <-dev.req:
+			inDev[w] = r
+		case err := <-resCh[w]:
+			inDev[w] = nil
+			if err != nil {
+				s.Fail("C16", "write", "CobsWrapper.Write with two writers: %v", err)
+				return false
+			}
+		}
+		return true
+	}
+	for {
+		type act struct {
+			start bool
+			w     int
+		}
+		var acts []act
+		for w := 0; w < 2; w++ {
+			if inDev[w] != nil {
+				acts = append(acts, act{false, w})
+			} else if idx[w] < len(frames[w]) {
+				acts = append(acts, act{true, w})
+			}
+		}
+		if len(acts) == 0 {
+			break
+		}
+		a := acts[wl.Draw(len(acts))]
+		if a.start {
+			if inDev[1-a.w] != nil {
+				s.Probe("a write begins while another is blocked in the device")
+			}
+			goCh[a.w] <- frames[a.w][idx[a.w]]
+			idx[a.w]++
+			order = append(order, fmt.Sprintf("w%d+", a.w))
+		} else {
+			r := inDev[a.w]
+			wire = append(wire, r.p...) // the device takes the bytes now
+			order = append(order, fmt.Sprintf("w%d.", a.w))
+			close(r.done)
+		}
+		if !await(a.w) {
+			return
+		}
+	}
+	// read the wire back through a wrapper of its own, in tape-chosen chunks
+	rd := &scriptDev{stream: wire, chunks: func(rem, max int) int { return 1 + wl.Draw(40) }}
+	rw := client.NewCobsWrapper(rd, 600)
+	what := fmt.Sprintf("two goroutines wrote frames of %v and %v bytes through one wrapper (begin +, served by the device .: %s)", lens(frames[0]), lens(frames[1]), strings.Join(order, " "))
+	var got [][]byte
+	for len(got) < 64 {
+		buf := make([]byte, 700)
+		n, err := rw.Read(buf)
+		if err == io.EOF {
+			break
+		}
+		if err != nil {
+			s.Fail("C16", "two-writers", "%s; reading the wire back gives an error although no byte was damaged: %v", what, err)
+			return
+		}
+		got = append(got, append([]byte(nil), buf[:n]...))
+	}
+	next := [2]int{}
+	for _, g := range got {
+		w := -1
+		if len(g) >= 2 && (g[0] == 0xA0 || g[0] == 0xA1) {
+			w = int(g[0] - 0xA0)
+		}
+		if w < 0 || next[w] >= len(frames[w]) || !bytes.Equal(g, frames[w][next[w]]) {
+			s.Fail("C16", "two-writers", "%s; frame %x (%d bytes) read back from the wire is not the next frame of either writer: a frame was lost, repeated or mixed", what, trunc(g), len(g))
+			return
+		}
+		next[w]++
+	}
+	if next[0] != len(frames[0]) || next[1] != len(frames[1]) {
+		s.Fail("C16", "two-writers", "%s; only %d and %d of them came out of the wire", what, next[0], next[1])
+		return
+	}
+	s.Probe("two-writer runs")
 }
 
 func init() { register(&Engine{Prop: "C16", Run: runC16, NoBubble: true}) }
